@@ -74,6 +74,9 @@ def run_shard(rec, tier, seed, shard, nshards):
         a_h5, b_h5, j_out = os.path.join(tmp, "a.h5"), os.path.join(tmp, "b.h5"), os.path.join(tmp, "m.json")
         for hi in range(n_hist):
             kw = gen.realistic_screen_kwargs(rng, n_rows=(2, 40), n_plates=(1, 8), observed=str(rng.choice(["none", "some", "random", "all"])), singletons=float(rng.choice([0, 0.2])))
+            if rng.random() < 0.01:
+                kw = gen.realistic_screen_kwargs(rng, n_samples=(3, 8), n_drugs=(4, 8), n_rows=(1500, 4500), n_plates=(10, 60), observed="some")
+                rec.count("large_screen_histories")
             screen = Screen(**kw)
             model = Model(screen)
             trace = []
